@@ -14,7 +14,9 @@ Driver ops of property C13 (date codecs and arithmetic).  One canonical line per
   fdp <u64>                                     util::fast_digit_parse
   i64t <hex>                                    scalar::to_i64_t
   frombin-block <start> <count>                 FNV fold of Date/DateHour::from_binary over a range
-  ymd-block <year> <count>                      FNV fold of codecs over every day of the years
+  ymd-block full|ends <year> <count>            FNV fold of codecs over every day (month ends) of the years
+  shape-block <hex>                             FNV fold of the parsers over all one-byte corruptions
+  fdp-block <seed> <count>                      FNV fold of fast_digit_parse over pseudo-random words
 -/
 namespace Jomini.Driver.C13
 open Jomini Jomini.Driver Jomini.Date
@@ -94,7 +96,7 @@ def frombinBlock (start : Int) (count : Nat) : UInt64 :=
   foldTasks (cs.map fun (s, n) => Task.spawn fun _ => frombinChunk n s fnvOffset)
 
 /-- everything the property says about one calendar day, folded into the hash. -/
-def dayCodes (y : Int) (m d : Nat) (idx : Nat) (h : UInt64) : UInt64 :=
+def dayCodes (full : Bool) (y : Int) (m d : Nat) (idx : Nat) (h : UInt64) : UInt64 :=
   let od := Date.fromYmdOpt y m d
   let fmtShort := od.bind Date.gameFmt
   let h := mix h (codeBytes fmtShort)
@@ -110,7 +112,7 @@ def dayCodes (y : Int) (m d : Nat) (idx : Nat) (h : UInt64) : UInt64 :=
   let h := mix h (codeInt bin)
   let h := mix h (codeDate (bin.bind Date.fromBinary))
   -- DateHour: binary codec for all 24 hours, text codec for two of them
-  let h := (List.range 24).foldl (fun h k =>
+  let h := (List.range (if full then 24 else 0)).foldl (fun h k =>
     let dh := DateHour.fromYmdhOpt y m d (k + 1)
     let b := dh.bind DateHour.toBinary
     mix (mix h (codeInt b)) (codeDateHour (b.bind DateHour.fromBinary))) h
@@ -124,14 +126,62 @@ def dayCodes (y : Int) (m d : Nat) (idx : Nat) (h : UInt64) : UInt64 :=
     let h := mix h (codeDateHour (fw.bind DateHour.parse))
     mix h (codeBytes (dh.bind DateHour.iso8601))) h
 
-def yearCodes (y : Int) : UInt64 :=
+/-- `full = true`: every day of the year; `false`: first and last day of each month. -/
+def yearCodes (full : Bool) (y : Int) : UInt64 :=
   let days : List (Nat × Nat) :=
-    (List.range 12).flatMap fun m => (List.range (daysPerMonth.getD (m + 1) 0)).map fun d => (m + 1, d + 1)
-  let (h, _) := days.foldl (fun (h, idx) (m, d) => (dayCodes y m d idx h, idx + 1)) (fnvOffset, 0)
+    (List.range 12).flatMap fun m =>
+      let n := daysPerMonth.getD (m + 1) 0
+      if full then (List.range n).map fun d => (m + 1, d + 1) else [(m + 1, 1), (m + 1, n)]
+  let (h, _) := days.foldl (fun (h, idx) (m, d) => (dayCodes full y m d idx h, idx + 1)) (fnvOffset, 0)
   h
 
-def ymdBlock (year : Int) (count : Nat) : UInt64 :=
-  foldTasks ((List.range count).map fun (k : Nat) => Task.spawn fun _ => yearCodes (year + (k : Int)))
+def ymdBlock (full : Bool) (year : Int) (count : Nat) : UInt64 :=
+  foldTasks ((List.range count).map fun (k : Nat) => Task.spawn fun _ => yearCodes full (year + (k : Int)))
+
+/-- fold of the four text parsers over every one-byte corruption of `base`: all 256 values at
+every position for `Date::parse`, a 12-symbol alphabet for the other three. -/
+def shapeBlock (base : Bytes) : UInt64 :=
+  let alpha : List UInt8 := [48, 49, 50, 57, 46, 47, 58, 45, 43, 32, 0, 255]
+  (List.range base.length).foldl (fun h pos =>
+    let h := (List.range 256).foldl (fun h v =>
+      mix h (codeDate (Date.parse (base.set pos (UInt8.ofNat v))))) h
+    alpha.foldl (fun h v =>
+      let t := base.set pos v
+      mix (mix (mix h (codeDateHour (DateHour.parse t))) (codeUniform (UniformDate.parse t))) (codeRaw (RawDate.parse t))) h) fnvOffset
+
+def splitmix (s : UInt64) : UInt64 × UInt64 :=
+  let s := s + 0x9E3779B97F4A7C15
+  let z := s
+  let z := (z ^^^ (z >>> 30)) * 0xBF58476D1CE4E5B9
+  let z := (z ^^^ (z >>> 27)) * 0x94D049BB133111EB
+  (s, z ^^^ (z >>> 31))
+
+/-- eight ASCII digits drawn from the bytes of `r` -/
+def digitWord (r : UInt64) : UInt64 :=
+  (List.range 8).foldl (fun (w : UInt64) (i : Nat) =>
+    let sh : UInt64 := 8 * i.toUInt64
+    w ||| (((48 : UInt64) + ((r >>> sh) &&& 0xFF) % 10) <<< sh)) 0
+
+def setByte (w : UInt64) (pos : UInt64) (v : UInt64) : UInt64 :=
+  (w &&& ~~~((0xFF : UInt64) <<< (8 * pos))) ||| (v <<< (8 * pos))
+
+/-- fold of `fast_digit_parse` over `n` pseudo-random words (random / all digits / one byte off) -/
+def fdpBlock : Nat → UInt64 → UInt64 → UInt64
+  | 0, _, h => h
+  | n + 1, st, h =>
+    let (st, r0) := splitmix st
+    let (st, r1) := splitmix st
+    let (st, r2) := splitmix st
+    let w :=
+      match r0 % 4 with
+      | 0 => r1
+      | 1 => digitWord r1
+      | 2 => setByte (digitWord r1) (r2 % 8) ((r2 >>> 8) &&& 0xFF)
+      | _ => setByte (digitWord r1) (r2 % 8) (if (r2 >>> 8) % 2 == 0 then 0x2f else 0x3a)
+    let c := match fastDigitParse (BitVec.ofNat 64 w.toNat) with
+      | some v => UInt64.ofNat v.toNat + 1
+      | none => 0
+    fdpBlock n st (mix h c)
 
 def fmtOf : String → Option DateFormat
   | "short" => some .dotShort
@@ -213,9 +263,14 @@ def handle : Handler
   | ["frombin-block", s, n] => do
     let s ← parseInt? s; let n ← parseNat? n
     pure s!"ok {(frombinBlock s n).toNat}"
-  | ["ymd-block", y, n] => do
+  | ["ymd-block", mode, y, n] => do
     let y ← parseInt? y; let n ← parseNat? n
-    pure s!"ok {(ymdBlock y n).toNat}"
+    let full ← (match mode with | "full" => some true | "ends" => some false | _ => none)
+    pure s!"ok {(ymdBlock full y n).toNat}"
+  | ["shape-block", h] => (parseHex h).map fun s => s!"ok {(shapeBlock s).toNat}"
+  | ["fdp-block", seed, n] => do
+    let seed ← parseNat? seed; let n ← parseNat? n
+    pure s!"ok {(fdpBlock n (UInt64.ofNat seed) fnvOffset).toNat}"
   | _ => none
 
 end Jomini.Driver.C13
